@@ -43,15 +43,15 @@ Record SInv (g : N -> option txn) (n : N) (cm ap : cursor) : Prop := {
   s4  : forall j t, g j = Some t -> cc t <> 0 -> t_ridx t < j;
   s5  : forall j t, g j = Some t -> rc t = 1 \/ rc t = 2 -> k_index cm = j /\ k_target cm = t_ridx t /\ cc t = 2;
   s7a : k_target cm < k_index cm -> k_revision cm = k_index cm \/ k_revision cm = k_target cm;
-  s7c : forall j t, g j = Some t -> j = k_index cm -> k_target cm < k_index cm -> cc t = 2 /\ k_target cm = t_ridx t;
+  s7c : forall j t, g j = Some t -> j = k_index cm /\ k_target cm < k_index cm -> cc t = 2 /\ k_target cm = t_ridx t;
   (* ordinals *)
   o1a : forall j t, g j = Some t -> cc t = 2 -> 1 <= t_cord t <= k_ordinal cm;
-  o1b : forall j t k u, g j = Some t -> g k = Some u -> j < k -> cc t = 2 -> cc u = 2 -> t_cord t < t_cord u;
+  o1b : forall j t k u, g j = Some t -> g k = Some u -> cc t = 2 -> cc u = 2 -> j < k -> t_cord t < t_cord u;
   o2a : forall j t, g j = Some t -> cc t = 1 -> k_change cm = j -> 1 <= k_ordinal cm;
-  o2b : forall j t k u, g j = Some t -> g k = Some u -> cc t = 1 -> k_change cm = j -> cc u = 2 -> t_cord u < k_ordinal cm;
+  o2b : forall j t k u, g j = Some t -> g k = Some u -> cc t = 1 -> cc u = 2 -> k_change cm = j -> t_cord u < k_ordinal cm;
   o3a : forall j t, g j = Some t -> rc t = 2 -> t_rord t = k_ordinal cm;
   o3b : forall j t k u, g j = Some t -> g k = Some u -> rc t = 2 -> cc u = 2 -> t_cord u < t_rord t;
-  o4  : forall j t k u, g j = Some t -> g k = Some u -> rc t = 1 -> k_revision cm <> j -> cc u = 2 -> t_cord u < k_ordinal cm;
+  o4  : forall j t k u, g j = Some t -> g k = Some u -> rc t = 1 -> cc u = 2 -> k_revision cm <> j -> t_cord u < k_ordinal cm;
   (* apply frontier *)
   a0  : forall j t, g j = Some t -> ca t <> 0 -> ca t <> 4 -> cc t = 2;
   a0b : forall j t, g j = Some t -> ca t = 4 -> cc t = 5;
@@ -60,8 +60,8 @@ Record SInv (g : N -> option txn) (n : N) (cm ap : cursor) : Prop := {
           (k_ordinal ap = t_cord t /\ k_revision ap = j /\ k_index ap = j /\ k_target ap = j);
   a2  : forall j t, g j = Some t -> ca t = 3 \/ ca t = 5 -> t_cord t <= k_ordinal ap + 1;
   a3  : forall j t, g j = Some t -> ca t = 2 -> t_cord t <= k_ordinal ap;
-  a7  : forall k u j t, g k = Some u -> g j = Some t -> ca u = 1 -> k_ordinal ap = t_cord u -> cc t = 2 ->
-          k_ordinal ap < t_cord t -> ca t = 0;
+  a7  : forall k u j t, g k = Some u -> g j = Some t -> ca u = 1 -> cc t = 2 ->
+          k_ordinal ap = t_cord u /\ k_ordinal ap < t_cord t -> ca t = 0;
   b1  : forall j t, g j = Some t -> ra t = 1 ->
           rc t = 2 /\ k_target ap = t_ridx t /\ (k_ordinal ap + 1 = t_rord t \/ k_ordinal ap = t_rord t)
 }.
@@ -241,21 +241,24 @@ Qed.
 Definition box (P : Prop) : Prop := P.
 Lemma box_use (P : Prop) : box P -> P. Proof. exact (fun x => x). Qed.
 
-Ltac norm_fact H :=
-  lazymatch type of H with
-  | True => clear H
-  | _ /\ _ => let H1 := fresh "N" in let H2 := fresh "N" in destruct H as [H1 H2]; norm_fact H1; norm_fact H2
-  | _ <> _ => idtac
-  | ?A \/ ?B => change (box (A \/ B)) in H
-  | ?A -> ?B => change (box (A -> B)) in H
-  | _ => idtac
-  end.
-
 Ltac norm_neg H :=
   lazymatch type of H with
   | ~ (_ \/ _) => let H1 := fresh "ng" in let H2 := fresh "ng" in
                    apply Decidable.not_or in H; destruct H as [H1 H2]; norm_neg H1; norm_neg H2
+  | ~ (?A /\ ?B) => let H' := fresh "N" in assert (H' : box (~ A \/ ~ B)) by (unfold box; lia); clear H
   | _ => idtac
+  end.
+
+Ltac norm_fact H :=
+  lazymatch type of H with
+  | True => clear H
+  | _ /\ _ => let H1 := fresh "N" in let H2 := fresh "N" in destruct H as [H1 H2]; norm_fact H1; norm_fact H2
+  | ~ (_ /\ _) => norm_neg H
+  | ~ (_ \/ _) => norm_neg H
+  | _ <> _ => idtac
+  | ?A \/ ?B => change (box (A \/ B)) in H
+  | ?A -> ?B => change (box (A -> B)) in H
+  | ?T => try match goal with H2 : T |- _ => assert_fails (constr_eq H2 H); clear H end
   end.
 
 Definition fired := True.
@@ -271,25 +274,27 @@ Ltac status_known X :=
   | E : X = ?v |- _ => is_num v
   end.
 
-(* decide the status literal L: tac_true pf / tac_false / tac_unknown *)
+(* decide the status literal L: tac_true pf / tac_false tt / tac_unknown tt (continuations take a dummy argument so that
+   Ltac does not run them when they are passed) *)
 Ltac decide_lit L tac_true tac_false tac_unknown :=
   lazymatch L with
   | ?X = ?c =>
       lazymatch goal with
       | E : X = c |- _ => tac_true E
-      | E : X <> c |- _ => tac_false
-      | E : X = ?v |- _ => tryif is_num v then tac_false else tac_unknown
-      | _ => tac_unknown
+      | E : X <> c |- _ => tac_false tt
+      | E : X = N0 |- _ => tac_false tt
+      | E : X = Npos _ |- _ => tac_false tt
+      | _ => tac_unknown tt
       end
   | ?X <> ?c =>
       lazymatch goal with
       | E : X <> c |- _ => tac_true E
-      | E : X = c |- _ => tac_false
-      | E : X = ?v |- _ =>
-          tryif is_num v
-          then (let a := fresh "a" in assert (a : X <> c) by (rewrite E; discriminate); tac_true a)
-          else tac_unknown
-      | _ => tac_unknown
+      | E : X = c |- _ => tac_false tt
+      | E : X = N0 |- _ =>
+          let a := fresh "a" in assert (a : X <> c) by (rewrite E; discriminate); tac_true a
+      | E : X = Npos _ |- _ =>
+          let a := fresh "a" in assert (a : X <> c) by (rewrite E; discriminate); tac_true a
+      | _ => tac_unknown tt
       end
   end.
 
@@ -299,26 +304,58 @@ Ltac is_lit L :=
   | ?X <> ?c => is_code X; is_num c
   end.
 
+Ltac is_sprem A :=
+  lazymatch A with
+  | ?L1 \/ ?L2 => is_sprem L1; is_sprem L2
+  | _ => is_lit A
+  end.
+
+Ltac decide_prem A k_true k_false k_unknown :=
+  lazymatch A with
+  | ?L1 \/ ?L2 =>
+      decide_prem L1 ltac:(fun a => k_true constr:(@or_introl L1 L2 a))
+        ltac:(fun _ => decide_prem L2 ltac:(fun b => k_true constr:(@or_intror L1 L2 b)) k_false k_unknown)
+        ltac:(fun _ => decide_prem L2 ltac:(fun b => k_true constr:(@or_intror L1 L2 b)) k_unknown k_unknown)
+  | _ => decide_lit A k_true k_false k_unknown
+  end.
+
 Ltac fire_with H a :=
   let H' := fresh "N" in pose proof (H a) as H'; clear H; norm_fact H'; mark_fired.
 
-Ltac try_fire H :=
+(* status-guarded facts: decided by lookup only (cheap) *)
+Ltac try_fire_s H :=
   lazymatch type of H with
   | box (?A -> ?B) =>
-      tryif is_lit A
-      then decide_lit A ltac:(fun a => fire_with H a) ltac:(clear H)
-             ltac:(tryif is_lit B
+      lazymatch goal with
+      | E : A |- _ => fire_with H E
+      | E : box A |- _ => fire_with H (box_use A E)
+      | _ =>
+      tryif is_sprem A
+      then decide_prem A ltac:(fun a => fire_with H a) ltac:(fun _ => clear H)
+             ltac:(fun _ =>
+                   tryif is_lit B
                    then decide_lit B ltac:(fun _ => clear H)
-                          ltac:(let na := fresh "N" in
+                          ltac:(fun _ =>
+                                let na := fresh "N" in
                                 assert (na : ~ A) by (let x := fresh in intro x; apply H in x; revert x; lia);
                                 clear H; norm_neg na; mark_fired)
-                          ltac:(idtac)
+                          ltac:(fun _ => idtac)
                    else idtac)
-      else
+      else idtac
+      end
+  | _ => idtac
+  end.
+
+(* facts guarded by a comparison of indices / ordinals, and disjunctive facts: decided by lia over the atoms;
+   `full` also tries to refute the premise (pruning) *)
+Ltac try_fire_i full H :=
+  lazymatch type of H with
+  | box (?A -> ?B) =>
+      tryif is_sprem A then idtac else
       first [ let a := fresh "a" in
               assert (a : A) by (first [assumption | lia]);
               fire_with H a
-            | assert (~ A) by lia; clear H
+            | lazymatch full with true => assert (~ A) by lia; clear H end
             | let nb := fresh "nb" in
               assert (nb : ~ B) by lia;
               let na := fresh "N" in assert (na : ~ A) by (intro; apply nb; apply H; assumption); clear H nb; norm_neg na; mark_fired
@@ -336,20 +373,28 @@ Ltac try_fire H :=
   | _ => idtac
   end.
 
-Ltac pass :=
+Ltac pass_gen tac :=
   repeat match goal with H : box _ |- _ => revert H end;
-  repeat (let H := fresh "B" in intro H; lazymatch type of H with box _ => first [ try_fire H | idtac ] end).
+  repeat (let H := fresh "B" in intro H; lazymatch type of H with box _ => first [ tac H | idtac ] end).
 
 Ltac unbox_all := repeat match goal with H : box _ |- _ => apply box_use in H end.
 
-(* propagate until a pass fires nothing (at most 8 passes) *)
-Ltac fwd_n n :=
-  pass;
+(* status propagation to a fixpoint *)
+Ltac sat_s n :=
+  pass_gen try_fire_s;
   lazymatch goal with
-  | X : fired |- _ => clear X; lazymatch n with O => idtac | S ?n' => fwd_n n' end
+  | X : fired |- _ => clear X; lazymatch n with O => idtac | S ?n' => sat_s n' end
   | _ => idtac
   end.
-Ltac fwd := fwd_n 8%nat.
+
+Ltac fwd_loop n full :=
+  sat_s 10%nat;
+  pass_gen ltac:(try_fire_i full);
+  lazymatch goal with
+  | X : fired |- _ => clear X; lazymatch n with O => idtac | S ?n' => fwd_loop n' false end
+  | _ => idtac
+  end.
+Ltac fwd := fwd_loop 6%nat true.
 
 (* case analysis when propagation is stuck: first on a disjunctive fact, then on a premise that compares indices /
    ordinals (not a status code), last on a status premise; depth-limited *)
@@ -379,7 +424,7 @@ Ltac dpll n :=
                       | H : box (_ \/ _) |- _ => destruct H as [H|H]; norm_fact H; dpll n'
                       end
                     | match goal with
-                      | H : box (?A -> _) |- _ => tryif is_status A then fail else (split_on H A ltac:(dpll n'))
+                      | H : box (?A -> _) |- _ => tryif is_sprem A then fail else (split_on H A ltac:(dpll n'))
                       end
                     | match goal with
                       | H : box (?A -> _) |- _ => split_on H A ltac:(dpll n')
@@ -393,7 +438,7 @@ Ltac refute :=
   | |- ?G => let ng := fresh "ng" in assert (G \/ ~ G) as [ng|ng] by lia; [exact ng | exfalso; norm_neg ng]
   end.
 
-Ltac finish := refute; dpll 6%nat.
+Ltac finish := dpll 6%nat.
 
 Ltac pf H := let N := fresh "N" in pose proof H as N; norm_fact N.
 
@@ -452,6 +497,17 @@ Ltac inst_same g :=
            end
     end).
 
+(* the order of two distinct indices is the case analysis most binary conjuncts need: a disjunctive fact, split first *)
+Ltac inst_tricho g :=
+  for_each_pair g ltac:(fun j t Hg k u Hk =>
+    lazymatch j with
+    | k => idtac
+    | _ => lazymatch goal with
+           | _ : seen2 k u j t |- _ => idtac
+           | _ => let T := fresh "N" in assert (T : box (j < k \/ (j = k \/ k < j))) by (unfold box; lia)
+           end
+    end).
+
 (* commit-frontier conjuncts *)
 Ltac instC HS g :=
   inst_same g;
@@ -465,6 +521,7 @@ Ltac instC HS g :=
 (* + ordinal conjuncts *)
 Ltac instO HS g :=
   instC HS g;
+  inst_tricho g;
   for_each_tx g ltac:(fun j t Hg =>
       pf (o1a _ _ _ _ HS j t Hg); pf (o2a _ _ _ _ HS j t Hg); pf (o3a _ _ _ _ HS j t Hg));
   for_each_pair g ltac:(fun j t Hg k u Hk =>
@@ -510,9 +567,15 @@ Ltac frame_eauto :=
 
 (* one conjunct of SInv after a write: `prep` normalises the goal (field rewriting / projections), `inst` brings in the
    instantiated old conjuncts of the right group *)
+Ltac norm_ctx :=
+  repeat match goal with
+         | H : _ \/ _ |- _ => norm_fact H
+         | H : _ /\ _ |- _ => norm_fact H
+         end.
+
 Ltac conj_with prep inst extra :=
   intros; prep;
-  first [ frame_eauto | solve [intros; lia] | (splits; inst; extra; finish) ].
+  first [ frame_eauto | solve [intros; lia] | (splits; refute; norm_ctx; inst; extra; finish) ].
 
 Ltac sinv_by prep HS g extra :=
   constructor;
@@ -580,4 +643,46 @@ Proof.
     + destruct (X3 e He Hb) as [t0 [Ht0 [Hc Ho]]]. exists t0. split; [exact Ht0 | split; [exact Hc | lia]].
     + rewrite Forall_forall in F. rewrite incomplete_not_bCA in Hb by (apply F; exact He). discriminate.
   - apply order_ok_app_incompletes; assumption.
+Qed.
+
+(* ------------------------------------------------------------------ two consequences of SInv used as hints *)
+(* while a rollback apply is in progress no change apply is *)
+Lemma no_change_apply_during_rollback_apply g n cm ap i t j t0 :
+  SInv g n cm ap -> g i = Some t -> rc t = 2 -> ra t = 1 -> g j = Some t0 -> ca t0 = 1 -> False.
+Proof.
+  intros HS Hi G1 G2 Hj G3.
+  pose proof (b1 _ _ _ _ HS i t Hi G2) as B1.
+  pose proof (s5 _ _ _ _ HS i t Hi (or_intror G1)) as S5.
+  assert (C0 : cc t0 = 2) by (apply (a0 _ _ _ _ HS j t0 Hj); lia).
+  assert (R : t_ridx t < i) by (apply (s4 _ _ _ _ HS i t Hi); lia).
+  pose proof (o3b _ _ _ _ HS i t j t0 Hi Hj G1 C0) as O1.
+  pose proof (o3b _ _ _ _ HS i t i t Hi Hi G1 (proj2 (proj2 S5))) as O2.
+  pose proof (a1 _ _ _ _ HS j t0 Hj G3) as A1.
+  destruct A1 as [[D1 D2] | [D1 [D2 [D3 D4]]]]; [lia|].
+  assert (L : j < i) by lia.
+  pose proof (o1b _ _ _ _ HS j t0 i t Hj Hi C0 (proj2 (proj2 S5)) L) as O3.
+  lia.
+Qed.
+
+(* when a change apply is in progress with the applied ordinal just below its ordinal, every committed change with a larger
+   ordinal is still PENDING *)
+Lemma later_applies_pending g n cm ap i t j t0 :
+  SInv g n cm ap -> g i = Some t -> ca t = 1 -> ~ (k_ordinal ap = t_cord t /\ k_revision ap = i) ->
+  g j = Some t0 -> cc t0 = 2 -> t_cord t < t_cord t0 -> ca t0 = 0.
+Proof.
+  intros HS Hi G1 G2 Hj C0 L.
+  pose proof (a1 _ _ _ _ HS i t Hi G1) as A1.
+  pose proof (a1 _ _ _ _ HS j t0 Hj) as A1'.
+  pose proof (a2 _ _ _ _ HS j t0 Hj) as A2.
+  pose proof (a3 _ _ _ _ HS j t0 Hj) as A3.
+  pose proof (a0b _ _ _ _ HS j t0 Hj) as A0.
+  pose proof (st_code_le (t_ca t0)) as R.
+  assert (E : k_ordinal ap + 1 = t_cord t) by lia.
+  assert (X : ca t0 = 0 \/ ca t0 = 1 \/ ca t0 = 2 \/ ca t0 = 3 \/ ca t0 = 4 \/ ca t0 = 5) by lia.
+  destruct X as [X | [X | [X | [X | [X | X]]]]]; [exact X | | | | |]; exfalso.
+  - specialize (A1' X). lia.
+  - specialize (A3 X). lia.
+  - specialize (A2 (or_introl X)). lia.
+  - specialize (A0 X). lia.
+  - specialize (A2 (or_intror X)). lia.
 Qed.
